@@ -43,6 +43,8 @@ func init() {
 				execs = "20000000"
 			}
 			bs = append(bs, Batch{Name: "gofuzz", Kind: "gofuzz", Weight: 6, Args: map[string]string{"pkg": "fuzzc02", "target": "FuzzParseLine", "execs": execs, "parallel": "6"}})
+			// one live batch without the race detector, under a hard address-space limit (see worker.go)
+			bs = append(bs, Batch{Name: "live-norace", Args: map[string]string{"mode": "live", "tracking": "1", "salt": "nr"}, Race: false, Procs: 4})
 			for _, tr := range []string{"0", "1"} {
 				for _, procs := range []int{1, 4} {
 					bs = append(bs, Batch{Name: fmt.Sprintf("live-t%s-p%d", tr, procs), Args: map[string]string{"mode": "live", "tracking": tr}, Race: true, Procs: procs})
@@ -77,6 +79,7 @@ func c02Direct(c *Ctx, gen string, idx int, s string) string {
 	site := ""
 	var pv interface{}
 	stage := "ParseLine"
+	rig.CallTick()
 	func() {
 		defer func() {
 			if pv = recover(); pv != nil {
@@ -248,6 +251,18 @@ var c02Verbs = []string{"PING", "001", "433", "NICK", "CAP", "410", "AUTHENTICAT
 
 var c02Params = []string{"", ":", "#c", "me", "ghost", "+o", "-k", "+kl", "\x01", "\x01VERSION\x01", "\x01PING\x01", "\x01PING 1 2\x01", "\x01ACTION\x01", "*", "LS", "ACK", "NAK", "sasl", "-sasl", "+", "=", "@", "H*", "0 real name", "a b c", "##", "&x", "1", "-1", "99999999999999999999"}
 
+// CTCP requests the built-in handler answers by echoing its argument through the message splitter
+func c02CTCPProbe(r interface{ Intn(int) int }) c02Probe {
+	n := []int{1, 40, 449, 450, 451, 600, 1500}[r.Intn(7)]
+	unit := []string{"a", "\x80\xbf", "\xff", "é", "😀", " ", ". ", "\x01"}[r.Intn(8)]
+	arg := strings.Repeat(unit, n/len(unit)+1)[:n]
+	verb := []string{"PING", "VERSION", "ping", "TIME"}[r.Intn(4)]
+	cmd := []string{"PRIVMSG", "NOTICE"}[r.Intn(2)]
+	raw := fmt.Sprintf(":x!y@z %s me :\x01%s %s\x01", cmd, verb, arg)
+	raw = strings.ReplaceAll(raw, "\n", "")
+	return c02Probe{raw, fmt.Sprintf("ctcp-%s-%s|unit=%q|n=%d", cmd, verb, unit, n)}
+}
+
 var c02Prefixes = []string{"", ":srv ", ":me!i@h ", ":ghost!g@h ", ":other ", ":x!y ", ":!@ ", ":me ", "@t=v ", "@t=v :me!i@h ", ":a@b!c "}
 
 type c02Probe struct {
@@ -256,6 +271,9 @@ type c02Probe struct {
 }
 
 func c02MakeProbe(r interface{ Intn(int) int }, idx int) c02Probe {
+	if r.Intn(12) == 0 {
+		return c02CTCPProbe(r)
+	}
 	switch r.Intn(10) {
 	case 0: // raw odd bytes
 		n := r.Intn(12)
@@ -368,7 +386,7 @@ func runC02Live(c *Ctx) {
 			if !c.Want("live", idx) {
 				continue
 			}
-			r := rig.Rand(c.Seed, "C02", "live", tracking, idx)
+			r := rig.Rand(c.Seed, "C02", "live", tracking, c.Arg("salt", ""), idx)
 			if tracking && i%20 == 19 {
 				// get back onto the channel in case a probe removed us
 				mc.SendLine(":" + s.Conn.Me().Nick + "!ident@h JOIN #c")
